@@ -300,6 +300,41 @@ def h_resubmit(ctx, field):
   ctx.check('no error reply', not any(isinstance(m, of.ofp_error) for m in sent))
 
 
+def h_install_with_error(ctx, kind):
+  """an entry installed by a flow_mod that also draws an error reply (it names a packet buffer the switch does not have): the error quotes
+  the request, and the installed entry must keep matching exactly what it matched - the frames it describes still hit it"""
+  from props import env
+  env.get_core()
+  of = ctx.pox('pox.openflow.libopenflow_01'); swm = ctx.pox('pox.datapaths.switch'); pkt = ctx.pox('pox.lib.packet'); addrs = ctx.pox('pox.lib.addresses')
+  from symx.core import SymBytes
+  sw = swm.SoftwareSwitch(dpid=3, ports=4, max_buffers=2)
+  sent = []
+  class Conn:
+    def send(c, msg): sent.append(msg)
+    def set_message_handler(c, h): pass
+  sw.set_connection(Conn())
+  outs = []
+  sw.addListenerByName('DpPacketOut', lambda e: outs.append(e.port.port_no))
+  ipd = list(ctx.bytes('nw_dst', 4)); sport = ctx.int('sport', 1, 0xffff); dport = ctx.int('dport', 1, 0xffff)
+  for v in (67, 68, 53, 5353, 520, 4789): ctx.assume(ctx.And(sport != v, dport != v))
+  if kind == 'ip':        # an IP flow that does not name a transport protocol: its tp_src/tp_dst are wildcarded on the wire *and* in the table
+    m = of.ofp_match(dl_type=0x0800, nw_dst=addrs.IPAddr(env.tobytes(ctx, ipd)))
+    frame = [2, 0, 0, 0, 0, 9, 2, 0, 0, 0, 0, 1, 0x08, 0x00] + [0x45, 0, 0, 28, 0, 0, 0, 0, 64, 17, 0, 0, 10, 0, 0, 1] + ipd + [sport >> 8, sport & 255, dport >> 8, dport & 255, 0, 8, 0, 0]
+  else:                   # a non-IP flow (ARP): network-layer fields beyond the ARP ones do not apply
+    m = of.ofp_match(dl_type=0x0806, nw_dst=addrs.IPAddr(env.tobytes(ctx, ipd)))
+    frame = [0xff] * 6 + [2, 0, 0, 0, 0, 1, 0x08, 0x06] + [0, 1, 8, 0, 6, 4, 0, 1] + [2, 0, 0, 0, 0, 1, 10, 0, 0, 1] + [0] * 6 + ipd
+  fm = of.ofp_flow_mod(command=0, priority=100, match=m, actions=[of.ofp_action_output(port=2)], buffer_id=ctx.int('bogus_buffer', 1, 9))
+  sw.rx_message(sw._connection, of.ofp_flow_mod.unpack_new(fm.pack())[1])
+  errs = [x for x in sent if isinstance(x, of.ofp_error)]
+  ctx.check('the flow_mod naming an unknown buffer draws one BAD_REQUEST error (BUFFER_UNKNOWN / BUFFER_EMPTY)', len(errs) == 1 and errs[0].type == 1 and errs[0].code in (7, 8))
+  ctx.check('the entry is installed all the same', len(sw.table.entries) == 1)
+  raw = SymBytes(frame) if ctx.sym else bytes(frame)
+  del sent[:]
+  sw.rx_packet(pkt.ethernet(raw), 1)
+  ctx.check('a frame the entry describes hits it (forwarded, no packet-in)', outs == [2] and not any(isinstance(x, of.ofp_packet_in) for x in sent))
+  ctx.witness('done')
+
+
 def h_extract(ctx, kind, tagged):
   """field extraction from frame bytes: ofp_match.from_packet(ethernet(raw), in_port, spec_frags=True) vs a byte-offset extractor
   written from OpenFlow 1.0 sec. 3.4 (header parsing flowchart)"""
@@ -403,6 +438,8 @@ def obligations(tier):
                desc='add_entry binary insertion: table sorted by descending effective priority and complete after every one of n insertions (symbolic priorities, exact/wildcarded)'),
     Obligation('O3_lookup', h_lookup, [dict(n=k) for k in range(1, (3 if thorough else 2) + 1)], witnesses=('hit', 'miss'),
                desc='table sorted after every add_entry; lookup returns a matching entry of maximal effective priority; miss iff none'),
+    Obligation('O5_install_error', h_install_with_error, [dict(kind=k) for k in ('ip', 'arp')], witnesses=('done',),
+               desc='an entry whose flow_mod also drew an error reply (unknown buffer id) keeps matching the frames it describes'),
     Obligation('O4_resubmit', h_resubmit, [dict(field=f) for f in ('nw_dst', 'dl_dst')], witnesses=('hit-high', 'hit-low', 'miss'),
                desc='a buffered frame sent back to the table after a header rewrite (packet_out: set field, output OFPP_TABLE) is looked up by its current headers'),
     Obligation('O3_lookup_frame', h_lookup_real, [dict(n=1)] + ([dict(n=2)] if thorough else []), witnesses=('hit',),
